@@ -51,6 +51,7 @@ DCT = "http://purl.org/dc/terms/"
 XSI = "http://www.w3.org/2001/XMLSchema-instance"
 CT_CORE = "application/vnd.openxmlformats-package.core-properties+xml"
 RT_CORE = "http://schemas.openxmlformats.org/package/2006/relationships/metadata/core-properties"
+RT_CORE_ALT = "http://schemas.openxmlformats.org/officedocument/2006/relationships/metadata/core-properties"
 # property -> element it is stored in (OPC Part 2 core properties; author/comments are the UI names of creator/description)
 ELEMENT = {
     "author": (DC, "creator"), "category": (CP, "category"), "comments": (DC, "description"),
@@ -216,7 +217,11 @@ def find_core(pkg):
     with zipfile.ZipFile(io.BytesIO(pkg)) as z:
         names = set(z.namelist())
         rels = etree.fromstring(z.read("_rels/.rels"), PLAIN)
+        # (the relationship type of the package conventions, or the ".../officedocument/..." spelling of ECMA-376 1st edition that
+        # some producers still write; either way ONE relationship, to ONE part)
         tgt = [r.get("Target") for r in rels if isinstance(r.tag, str) and r.get("Type") == RT_CORE]
+        if not tgt:  # (the standard type wins where a deck carries both, as tests/test_files/test_slides.pptx does)
+            tgt = [r.get("Target") for r in rels if isinstance(r.tag, str) and r.get("Type") == RT_CORE_ALT]
         if len(tgt) != 1:
             return None, "relationship(%d)" % len(tgt)
         name = tgt[0].lstrip("/")
@@ -255,8 +260,25 @@ def deck_bytes(src):
         path = os.path.join(env.REPO, rel) if rel else os.path.join(os.path.dirname(pptx.__file__), "templates", "default.pptx")
         with open(path, "rb") as fh:
             b = fh.read()
-        _decks[src] = strip_core(b) if how == "stripped" else (reprefix_core(b) if how == "reprefixed" else b)
+        _decks[src] = strip_core(b) if how == "stripped" else (reprefix_core(b) if how == "reprefixed" else (retype_core_rel(b) if how == "altrel" else b))
     return _decks[src]
+
+
+def retype_core_rel(data):
+    """The deck with its core-properties part related by the first-edition relationship type (RT_CORE_ALT)."""
+    import zipfile
+
+    zin = zipfile.ZipFile(io.BytesIO(data))
+    if RT_CORE_ALT.encode() in zin.read("_rels/.rels"):
+        return data  # (a deck that carries both types already, like tests/test_files/test_slides.pptx, stays as it is)
+    out = io.BytesIO()
+    with zipfile.ZipFile(out, "w", zipfile.ZIP_DEFLATED) as zf:
+        for n in zin.namelist():
+            blob = zin.read(n)
+            if n == "_rels/.rels":
+                blob = blob.replace(RT_CORE.encode(), RT_CORE_ALT.encode())
+            zf.writestr(n, blob)
+    return out.getvalue()
 
 
 def reprefix_core(data):
@@ -348,6 +370,13 @@ def check_package(acc, pkg, st, base, wit):
     from vlib import xsdkit
 
     pre = "default-part-missing:" if st.src.startswith("stripped") else "core-part-missing:"
+    with zipfile.ZipFile(io.BytesIO(pkg)) as z_:
+        dup = sorted(n for n, c in Counter(z_.namelist()).items() if c > 1)
+        nrel = sum(1 for r in etree.fromstring(z_.read("_rels/.rels"), xsdkit.PLAIN) if isinstance(r.tag, str) and r.get("Type") in (RT_CORE, RT_CORE_ALT))
+    if dup:
+        acc.violation("saved-duplicate-member", "saved package holds %s more than once (source %s)" % (dup[:3], st.src), wit)
+    if nrel > 1 and not st.src.endswith("test_slides.pptx"):
+        acc.violation("core-relationship-duplicated", "saved package relates %d core-properties parts (source %s)" % (nrel, st.src), wit)
     core, why = find_core(pkg)
     if core is None:
         acc.violation(pre + why.split("(")[0], "saved package has no usable core-properties part (%s), source %s" % (why, st.src), wit)
@@ -695,7 +724,7 @@ def run_unit(unit, tier, seed, acc):
     elif kind == "history":
         corp = corpus_srcs()
         for i in range(unit["n"]):
-            src = ["default", "stripped", "reprefixed", "stripped", "corpus:" + r.choice(corp), "stripped:" + r.choice(corp), "default", "reprefixed:" + r.choice(corp)][i % 8]
+            src = ["default", "stripped", "reprefixed", "stripped", "corpus:" + r.choice(corp), "stripped:" + r.choice(corp), "altrel", "reprefixed:" + r.choice(corp), "default", "altrel:" + r.choice(corp)][i % 10]
             steps = [gen_step(r, r.choice(NAMES)) for _ in range(r.randint(4, 24))]
             for _ in range(r.randint(0, 2)):
                 steps.insert(r.randint(1, len(steps)), ["cycle"])
